@@ -20,6 +20,7 @@ XFin(v) == [k |-> "fin", v |-> v]
 XGt(x, c) == IF x.k = "fin" THEN RLt(c, x.v) ELSE x.k = "pinf"
 XLt(x, c) == IF x.k = "fin" THEN RLt(x.v, c) ELSE x.k = "ninf"
 XLe(x, c) == IF x.k = "fin" THEN RLeq(x.v, c) ELSE x.k = "ninf"
+XGe(x, c) == IF x.k = "fin" THEN RLeq(c, x.v) ELSE x.k = "pinf"
 XIsZero(x) == x.k = "fin" /\ RSign(x.v) = 0
 XAbsLt(x, c) == x.k = "fin" /\ RLt(RAbs(x.v), c)
 
@@ -40,9 +41,7 @@ CeresDen(rho) ==
   IF rho.k = "pinf" THEN OneThird
   ELSE RMax(OneThird, RSub(R1, RCube(RSub(RMul(R2, rho.v), R1))))
 
-RhoThreshold(kind) ==
-  IF Variant = "rho_gt_minus1" THEN RFromInt(-1)
-  ELSE IF kind = "ceres" THEN C1em3 ELSE R0
+RhoThreshold(kind) == IF kind = "ceres" THEN C1em3 ELSE R0
 
 \* step_and_update(rho): returns take_step and the new state
 StratStep(s, rho) ==
@@ -58,9 +57,15 @@ StratStep(s, rho) ==
     THEN [take |-> TRUE, s |-> [kind |-> "disney", delta |-> RFromInt(1000), reduce |-> s.reduce]]
     ELSE [take |-> FALSE, s |-> [kind |-> "disney", delta |-> RDiv(s.delta, RFromInt(10)), reduce |-> s.reduce]]
 
-\* the acceptance rule of optim.hpp:  r_n == 0 || pred_red <= 0 || take_step
-Accept(rnZero, predLe0, take) ==
-  IF Variant = "accept_always" THEN TRUE ELSE rnZero \/ predLe0 \/ take
+\* the acceptance rule of optim.hpp:  r_n == 0 || (actu_red >= 0 && (pred_red <= 0 || take_step))
+\* ("accept_pred_red_only" is the rule before the repair f247895:  r_n == 0 || pred_red <= 0 || take_step)
+Accept(rnZero, actuGe0, predLe0, take) ==
+  IF Variant = "accept_always" THEN TRUE
+  ELSE IF Variant = "accept_pred_red_only" THEN rnZero \/ predLe0 \/ take
+  ELSE rnZero \/ (actuGe0 /\ (predLe0 \/ take))
+
+\* reset() called by minimize on entry: the initial state of the kind ("no_reset": the call is missing)
+StratReset(s) == IF Variant = "no_reset" THEN s ELSE StratInit(s.kind)
 
 \* status chosen in an iteration (only looked at after an accepted step): Ftol test first, then Ptol
 StatusOf(accepted, ftest, ptest) ==
